@@ -8,10 +8,12 @@ POOL = ["/a/{x}", "/{x}/{y}", "/a/1", "/a/{x:dig}", "/{x}", "/a[/{x}]", "/*", "/
 TABLES = {
     "overlap": [("/a/{x}", ["GET"]), ("/{x}/{y}", ["GET"]), ("/a/1", ["GET"]), ("/a/{x:dig}", ["POST"]), ("/{x}", ["GET", "POST"])],
     "headget": [("/a/{x}", ["GET"]), ("/{x}", ["HEAD"]), ("/a[/{x}]", ["GET"]), ("/{x}/{y}", ["HEAD", "DELETE"])],
+    # overlapping dynamic routes whose method sets intersect: what one method cached must not answer another method
+    "methodsets": [("/a/{x:dig}", ["POST", "PUT"]), ("/a/{x}", ["GET", "POST"]), ("/{x}/{y}", ["PUT", "DELETE"])],
     "notallowed": [("/a/{x}", ["POST"]), ("/a/{x:dig}", ["PUT"]), ("/{x}/{y}", ["DELETE"]), ("/*", ALL9), ("/a/{x}/b", ["GET"])],
 }
 REQUESTS = [("GET", "/a/1"), ("GET", "/a/a"), ("POST", "/a/1"), ("HEAD", "/a/1"), ("GET", "/1/a"), ("DELETE", "/a/a"),
-            ("GET", "/a"), ("OPTIONS", "/a/1"), ("HEAD", "/a")]
+            ("GET", "/a"), ("OPTIONS", "/a/1"), ("HEAD", "/a"), ("PUT", "/a/1")]
 DEV = dict(D_IrregularOverwrite=False, D_QuotedStart=False, D_VarlessOptionalIrregular=False, D_EmptyCheckBeforeTrim=False,
            D_InterceptRaw=False, D_FallbackBeforeHead=False, D_AllowProbeHeadFallback=False,
            D_CacheKeyFirstSegment=False, D_CacheKeyNoMethod=False, D_CacheSkipsStable=False,
